@@ -115,6 +115,42 @@ def raise_texts(tree):
     return out
 
 
+PURE_READS = ('get', 'keys', 'values', 'items', 'index', 'count', 'pack', 'unpack', 'unpack_from', 'pack_into_none')
+
+
+def _used_as_state(cls_node, name):
+    """A class-level object is shared STATE only if something can change it: an instance or class method stores through it
+    (`self.X[..] = `, `self.X.a = `, `del self.X[..]`, augmented assignment) or calls a method on it other than a pure read
+    (`.get`, `.keys`, struct `.pack`/`.unpack`, ...); a constant lookup table that is only indexed is not state.
+    `self.X`, `cls.X` and `<ClassName>.X` are all recognised; the object escaping as an argument or a default also counts."""
+    def is_ref(n):
+        return isinstance(n, ast.Attribute) and n.attr == name and isinstance(n.value, ast.Name) and n.value.id in ('self', 'cls', cls_node.name)
+    for fn in ast.walk(cls_node):
+        if not isinstance(fn, (ast.FunctionDef, ast.Lambda)):
+            continue
+        for n in ast.walk(fn):
+            if isinstance(n, (ast.Assign, ast.AugAssign, ast.Delete)):
+                tgs = n.targets if isinstance(n, (ast.Assign, ast.Delete)) else [n.target]
+                for t in tgs:
+                    x = t
+                    while isinstance(x, (ast.Subscript, ast.Attribute)) and not is_ref(x):
+                        x = x.value
+                    if is_ref(x) and x is not t:
+                        return True
+            if isinstance(n, ast.Call):
+                f = n.func
+                if isinstance(f, ast.Attribute) and is_ref(f.value) and f.attr not in PURE_READS:
+                    return True
+                if any(is_ref(a) for a in n.args) or any(is_ref(k.value) for k in n.keywords):
+                    return True
+        if isinstance(fn, ast.FunctionDef):
+            for dflt in fn.args.defaults + [d for d in fn.args.kw_defaults if d is not None]:
+                if any(isinstance(x, ast.Name) and x.id == name for x in ast.walk(dflt)):
+                    return True
+    # a display / call result bound at class level and referenced bare inside the class body (e.g. as a default argument value)
+    return False
+
+
 def attr_writes(cls_node, owner='self'):
     """{method: sorted attribute chains written as self.a / self.a.b = ...}"""
     res = {}
@@ -300,7 +336,7 @@ def translate():
         for st in cn.body:
             if isinstance(st, ast.Assign) and isinstance(st.value, (ast.Call, ast.List, ast.Dict, ast.Set, ast.ListComp, ast.DictComp)):
                 for tg in st.targets:
-                    if isinstance(tg, ast.Name):
+                    if isinstance(tg, ast.Name) and _used_as_state(cn, tg.id):
                         class_level.append((cname, tg.id))
     class_level = sorted(set(class_level))
     # ---- exception-handler structure (C07/C09/C13/C14) ----------------------------------------
